@@ -1,5 +1,7 @@
 import PanderaModel.Alias
 import PanderaModel.Generated.AliasSkeletons
+import PanderaModel.Kind
+import PanderaModel.Generated.KindPrograms
 /-!
 # C04 — validation never modifies the caller's data unless inplace=True
 -/
@@ -87,7 +89,35 @@ example : isSafe (.seq (.choice (.mutate 0) .skip) .skip) = false := by decide
 example : ∃ s s', Exec (.mutate 0) s s' ∧ s.env 0 < s.next ∧ s'.heap (s.env 0) ≠ s.heap (s.env 0) :=
   ⟨⟨fun _ => 0, fun _ => 0, 1⟩, ⟨fun _ => 0, updF (fun _ => 0) 0 1, 1⟩, .mutate 0 _ 1, by decide, by simp [updF]⟩
 
-/-! ### container kind -/
+/-! ### container kind, on the entry points as translated from the source now -/
+
+open KindM in
+/-- per-run obligations: the polars entry points (`DataFrameSchema.validate`, `Column.validate`), as
+translated on this run, hand back the kind they were given — DataFrame and LazyFrame, validation
+enabled and disabled — and hand the backend a LazyFrame only -/
+theorem polars_entry_points_preserve_kind :
+    preservesKind kind_polarsContainerValidate = true ∧ preservesKind kind_polarsColumnValidate = true
+    ∧ backendSeesLazy kind_polarsContainerValidate = true ∧ backendSeesLazy kind_polarsColumnValidate = true := by
+  decide
+
+open KindM in
+/-- **C04 (kind)** `kind(validate(S, D)) == kind(D)` for the polars entry points, every input kind, validation
+switched on or off -/
+theorem polars_validate_kind (enabled : Bool) (k : K) :
+    call kind_polarsContainerValidate enabled k = some k ∧ call kind_polarsColumnValidate enabled k = some k :=
+  ⟨preservesKind_sound _ polars_entry_points_preserve_kind.1 enabled k,
+   preservesKind_sound _ polars_entry_points_preserve_kind.2.1 enabled k⟩
+
+open KindM in
+/-- non-vacuity: forgetting to collect, collecting unconditionally, or testing the kind *after* the conversion
+are all rejected -/
+example :
+    preservesKind (.seq (.setFlag 0) (.seq (.ifFlag (.lazy 0 0) .skip) (.seq (.backend 1 0) (.ret 1)))) = false
+    ∧ preservesKind (.seq (.setFlag 0) (.seq (.ifFlag (.lazy 0 0) .skip) (.seq (.backend 1 0) (.seq (.collect 1 1) (.ret 1))))) = false
+    ∧ preservesKind (.seq (.lazy 0 0) (.seq (.setFlag 0) (.seq (.backend 1 0) (.seq (.ifFlag (.collect 1 1) .skip) (.ret 1))))) = false := by
+  decide
+
+/-! ### container kind (summary table of all entry points) -/
 
 inductive Kind | pdDataFrame | pdSeries | plDataFrame | plLazyFrame
   deriving Repr, DecidableEq
